@@ -77,6 +77,7 @@ func addChecker(info *CheckerInfo, constructor func(*CheckerContext) (FileWalker
 			}
 			var err error
 			c.fileWalker, err = constructor(&c.ctx)
+			c.fileWalker = verifWrapWalker(&c, c.fileWalker)
 			return &c, err
 		},
 	}
